@@ -32,7 +32,7 @@ class Suite:
 
     def __init__(self, name, engine, cases, monitor=None, nontrivial=None, model_engine=None,
                  spec_engine=None, binary=None, rule="", compare=True, exhaustive=False, timeout=300,
-                 canon=None, candidate_ok=None, shards=1):
+                 canon=None, candidate_ok=None, shards=1, shrink=True):
         self.name = name
         self.engine = engine
         self.model_engine = model_engine or engine
@@ -46,6 +46,7 @@ class Suite:
         self.exhaustive = exhaustive
         self.timeout = timeout
         self.shards = shards
+        self.shrink = shrink      # False: cases are minimal by construction (or too large to reduce in reasonable time)
         self.canon = canon or (lambda il, ml: (il, ml))
         self.candidate_ok = candidate_ok or (lambda ops: True)
 
@@ -181,9 +182,9 @@ def process_suite(rep, mod, suite, model_ok, max_shrink=3):
             r = suite.monitor(cc, i2, s2)
             return bool(r) and r[1] == sig
 
-        ops = vlib.shrink_ops(c.ops, still, keep_prefix=c.meta.get("keep_prefix", 0)) if len(c.ops) > 1 else c.ops
+        ops = vlib.shrink_ops(c.ops, still, keep_prefix=c.meta.get("keep_prefix", 0)) if (len(c.ops) > 1 and suite.shrink) else c.ops
         cc = Case(c.cid + "-min", ops, c.meta)
-        i2 = run_impl(suite, [cc], 5).get(cc.cid, [])
+        i2 = run_impl(suite, [cc], 5 if suite.shrink else 60).get(cc.cid, [])
         s2 = run_model(suite.spec_engine, [cc]).get(cc.cid) if (model_ok and suite.spec_engine) else None
         r = suite.monitor(cc, i2, s2) or v
         path = rep.replay_path(suite.name)
@@ -209,9 +210,9 @@ def process_suite(rep, mod, suite, model_ok, max_shrink=3):
                 a2, b2 = suite.canon(run_impl(suite, [cc], 5).get("s") or [], m2 or [])
                 return a2 != b2
 
-            ops = vlib.shrink_ops(c.ops, still, keep_prefix=c.meta.get("keep_prefix", 0)) if len(c.ops) > 1 else c.ops
+            ops = vlib.shrink_ops(c.ops, still, keep_prefix=c.meta.get("keep_prefix", 0)) if (len(c.ops) > 1 and suite.shrink) else c.ops
             cc = Case(c.cid + "-min", ops, c.meta)
-            i2 = run_impl(suite, [cc], 5).get(cc.cid, [])
+            i2 = run_impl(suite, [cc], 5 if suite.shrink else 60).get(cc.cid, [])
             m2 = run_model(suite.model_engine, [cc]).get(cc.cid, [])
             d = vlib.first_diff(i2, m2)
             shown.append((cc, i2, m2, d))
